@@ -128,7 +128,9 @@ func options(a *Action) string {
 }
 
 type world struct {
-	b       *bk.Broker
+	b       *bk.Broker // the first broker (the only one unless the replay runs a cluster)
+	f       *fabric
+	nb      int
 	keys    map[string]string
 	clients map[string]*bk.Client
 	names   []string
@@ -194,7 +196,12 @@ func (w *world) collect(requester, isSub string) (map[string]*outRec, error) {
 		}
 		got[requester] = pk
 	}
-	w.b.Svc.VerifPresenceBarrier()
+	if w.f.multi() {
+		w.f.stopPump()
+		w.f.settle()
+	} else {
+		w.b.Svc.VerifPresenceBarrier()
+	}
 	for _, n := range w.names {
 		c := w.clients[n]
 		if c == nil || c.Closed {
@@ -347,7 +354,7 @@ func (w *world) hostile(c *bk.Client, cls string, rng *rand.Rand) (bool, error) 
 func directEntries(b *bk.Broker) int {
 	n := 0
 	for _, e := range b.Svc.VerifTrie().VerifEntries() {
-		if e.Type == message.SubscriberDirect {
+		if e.Type == message.SubscriberDirect && !(len(e.Ssid) >= 2 && e.Ssid[0] == 0 && e.Ssid[1] == message.Query[1]) {
 			n++
 		}
 	}
@@ -357,12 +364,18 @@ func directEntries(b *bk.Broker) int {
 // Replay executes one behaviour on a fresh broker and records the trace. A nil trace with an error means the
 // machinery failed (broker did not start, a client timed out): never a verdict by itself.
 func Replay(mode string, licVer int, storage string, walk []json.RawMessage, label string, rng *rand.Rand) (*core.Trace, error) {
-	b, err := bk.New(bk.Opts{Mode: mode, LicenseVer: licVer, Storage: storage})
+	return ReplayN(1, false, mode, licVer, storage, walk, label, rng)
+}
+
+// ReplayN executes one behaviour on nb brokers (clients placed as Session!StdHome says); see cluster.go.
+func ReplayN(nb int, surveyed bool, mode string, licVer int, storage string, walk []json.RawMessage, label string, rng *rand.Rand) (*core.Trace, error) {
+	f, err := newFabric(nb, mode, licVer, storage, surveyed)
 	if err != nil {
 		return nil, fmt.Errorf("broker: %v", err)
 	}
-	defer b.Close()
-	w := &world{b: b, clients: map[string]*bk.Client{}, byID: map[string]string{}, names: []string{"c1", "c2", "c3"}}
+	defer f.close()
+	b := f.bs["b1"]
+	w := &world{b: b, f: f, nb: nb, clients: map[string]*bk.Client{}, byID: map[string]string{}, names: []string{"c1", "c2", "c3"}}
 	if w.keys, err = mintKeys(b); err != nil {
 		return nil, err
 	}
@@ -395,9 +408,10 @@ func Replay(mode string, licVer int, storage string, walk []json.RawMessage, lab
 			ev["p"] = a.P
 		}
 		isSub := ""
+		f.startPump()
 		switch a.N {
 		case "connect":
-			c = b.Attach()
+			c = f.bs[homeOf(nb, a.C)].Attach()
 			w.clients[a.C] = c
 			w.byID[c.ID] = a.C
 			pkt := &mqtt.Connect{ClientID: []byte(a.C), UsernameFlag: true, Username: []byte(a.U)}
@@ -493,7 +507,14 @@ func Replay(mode string, licVer int, storage string, walk []json.RawMessage, lab
 			return nil, fmt.Errorf("step %s: %v", raw, err)
 		}
 		ev["out"] = out
-		ev["tcount"] = directEntries(b)
+		tc := 0
+		for _, n := range f.names {
+			tc += directEntries(f.bs[n])
+		}
+		ev["tcount"] = tc
+		if f.multi() {
+			ev["routes"] = f.routes(b.Lic.Contract())
+		}
 		tr.Events = append(tr.Events, core.Ev(ev))
 		if EventSink != nil {
 			EventSink(label, tr.Events[len(tr.Events)-1])
@@ -509,17 +530,24 @@ func mcCfg(mode, fam string, clients string, maxOps, maxStore int, gen string, s
 	if small {
 		sm = "TRUE"
 	}
-	return fmt.Sprintf("CONSTANTS\n Mode = %q\n Clients = %s\n KeyPerms <- StdKeyPerms\n Fam = %q\n MaxOps = %d\n MaxStore = %d\n Gen = %q\n Small = "+sm+"\nINIT MCInit\nNEXT MCNext\nVIEW View\nINVARIANTS TrieIsHeld NothingLeftBehind ClosedIsSilent DeliveriesJustified Dump\n",
+	return fmt.Sprintf("CONSTANTS\n Mode = %q\n Clients = %s\n KeyPerms <- StdKeyPerms\n Home <- HomeMap\n NB = 1\n Surveyed = FALSE\n Fam = %q\n MaxOps = %d\n MaxStore = %d\n Gen = %q\n Small = "+sm+"\nINIT MCInit\nNEXT MCNext\nVIEW View\nINVARIANTS TrieIsHeld NothingLeftBehind ClosedIsSilent DeliveriesJustified Dump\n",
 		mode, clients, fam, maxOps, maxStore, gen)
 }
 
 func simCfg(mode, fam string, maxOps int) string {
-	return fmt.Sprintf("CONSTANTS\n Mode = %q\n Clients = {\"c1\",\"c2\",\"c3\"}\n KeyPerms <- StdKeyPerms\n Fam = %q\n MaxOps = %d\n MaxStore = 6\n Gen = \"sim\"\n Small = FALSE\nINIT MCInit\nNEXT MCNext\nINVARIANTS TrieIsHeld NothingLeftBehind ClosedIsSilent DeliveriesJustified Dump\n",
+	return fmt.Sprintf("CONSTANTS\n Mode = %q\n Clients = {\"c1\",\"c2\",\"c3\"}\n KeyPerms <- StdKeyPerms\n Home <- HomeMap\n NB = 1\n Surveyed = FALSE\n Fam = %q\n MaxOps = %d\n MaxStore = 6\n Gen = \"sim\"\n Small = FALSE\nINIT MCInit\nNEXT MCNext\nINVARIANTS TrieIsHeld NothingLeftBehind ClosedIsSilent DeliveriesJustified Dump\n",
 		mode, fam, maxOps)
 }
 
-func traceCfg(mode string) string {
-	return fmt.Sprintf("CONSTANTS\n Mode = %q\n Clients = {\"c1\",\"c2\",\"c3\"}\n KeyPerms <- StdKeyPerms\nINIT TraceInit\nNEXT TraceNext\nCONSTRAINT MarkC\nINVARIANT TraceInv\nPOSTCONDITION AllConsumed\nCHECK_DEADLOCK FALSE\n", mode)
+func traceCfg(mode string) string { return traceCfgN(mode, 1, false) }
+
+// traceCfgN: nb brokers (clients placed by Session!StdHome); surveyed = the presence survey reaches the peers.
+func traceCfgN(mode string, nb int, surveyed bool) string {
+	sv := "FALSE"
+	if surveyed {
+		sv = "TRUE"
+	}
+	return fmt.Sprintf("CONSTANTS\n Mode = %q\n Clients = {\"c1\",\"c2\",\"c3\"}\n KeyPerms <- StdKeyPerms\n Home <- HomeMap\n NB = "+fmt.Sprint(nb)+"\n Surveyed = "+sv+"\nINIT TraceInit\nNEXT TraceNext\nCONSTRAINT MarkC\nINVARIANT TraceInv\nPOSTCONDITION AllConsumed\nCHECK_DEADLOCK FALSE\n", mode)
 }
 
 // Simulate asks TLC for random behaviours of a family.
@@ -583,7 +611,7 @@ func RunFamily(c *core.Ctx, p Plan) {
 				}
 			}
 		}})
-		initKey := `{"conn":{"c1":"new","c2":"new"},"held":{"c1":[],"c2":[]},"trie":[],"links":{"c1":[],"c2":[]},"store":[],"will":{"c1":{"on":false},"c2":{"on":false}}}`
+		initKey := `{"conn":{"c1":"new","c2":"new"},"held":{"c1":[],"c2":[]},"trie":[],"links":{"c1":[],"c2":[]},"store":{"b1":[]},"will":{"c1":{"on":false},"c2":{"on":false}}}`
 		maxWalks := 6000
 		if c.Quick() {
 			maxWalks = 250
